@@ -228,9 +228,12 @@ def c11(ctx):
     open(sp, "w").write("\n".join(scheds) + "\n")
     n = 3000 if ctx.tier == "quick" else 20000
     op = os.path.join(ctx.work, "conc.ndjson")
+    # the exhaustive "save, then draw" family as further cases (the feature flag on / off must not change any of them)
+    famp = os.path.join(ctx.work, "conc_family.ndjson")
+    open(famp, "w").write("\n".join(store.gen_lines(ctx, "SemMC", "SemMC_gen_save_quick.cfg", "the 'save' family as cases for the purity / flag comparisons", workers=8)) + "\n")
     def run_conc(out):
         """the harness process itself dies when the Go runtime detects concurrent map access: that is interference, not infrastructure"""
-        p = ctx.run_vh(["conc", ctx.seed, n, out, sp], check=False)
+        p = ctx.run_vh(["conc", ctx.seed, n, out, sp], check=False, env={"VERIF_CONC_FAMILY": famp})
         if p.returncode != 0:
             if "concurrent map" in p.stderr:
                 return None, p.stderr
